@@ -684,6 +684,9 @@ def case_C17(seed):
                 cfg2[f] = cfg2[f] * 100.0
         mpl = U.make_map(g2, use_latlon=True)
         r = U.make_matcher(mpl, cfg2).match(tr2)
+        r3 = U.make_matcher(U.make_map(g2, use_latlon=True), cfg2).match([p + (float(i),) for i, p in enumerate(tr2)])
+        if (r[0], r[1]) != (r3[0], r3[1]):
+            viol.append(('C17:latlon-triples-differ-from-pairs', f"lat-lon pairs {r} vs triples {r3}", {'case': U.case_repr(case)}))
         if not (isinstance(r, tuple) and isinstance(r[0], list)):
             viol.append(('C17:latlon-result-is-not-a-(list,index)-pair', f"lat-lon match returned {r!r}", {'case': U.case_repr(case)}))
     except Exception as e:
